@@ -375,6 +375,196 @@ fn run_case(c: &Cfg, trace: bool) -> CaseResult {
     res
 }
 
+// ---------------------------------------------------------------- registration histories
+
+#[derive(Clone, Copy, Debug, PartialEq)]
+enum HOp {
+    Reg1,
+    Reg1NewPort,
+    Reg2,
+    Unreg1,
+    Unreg2,
+    Idle300,
+    Idle2s,
+    IfAppears,
+}
+const HOPS: [HOp; 8] = [HOp::Reg1, HOp::Reg1NewPort, HOp::Reg2, HOp::Unreg1, HOp::Unreg2, HOp::Idle300, HOp::Idle2s, HOp::IfAppears];
+
+/// Register / re-register / unregister histories over two services sharing a host, with an
+/// interface that may appear later.  Per (service, interface, registration): announced within the
+/// bound with the values of that registration; if the daemon did not hold the instance name there,
+/// nothing naming it is sent in a response before three probes 250 ms apart and 250 ms of quiet;
+/// second announcement one second after the first.
+fn run_hist(seq: &[HOp], jitter: u64, trace: bool) -> CaseResult {
+    let mut res = CaseResult::default();
+    let mut table = vec![v4("sim0", IF0, "10.0.0.1", 24)];
+    let mut w = World::one(table.clone());
+    w.trace = trace;
+    w.ds[0].ctl.set_rng_default(jitter);
+    w.ds[0].h.set_ip_check_interval(1).unwrap();
+    w.poke(0);
+    w.advance(5100); // the first periodic check still follows the default interval
+    let base = w.now;
+    let ips = "10.0.0.5,10.0.1.5";
+    let tys = [n("_t._tcp.local"), n("_u._udp.local")];
+    let insts = [n("one._t._tcp.local"), n("two._u._udp.local")];
+    // (time, service, Some(port) = register / None = unregister that was answered OK)
+    let mut evs: Vec<(u64, usize, Option<u16>)> = vec![];
+    let mut if1_from: Option<u64> = None;
+    let mut solicited: Vec<(usize, usize)> = vec![];
+    let mut next_q = base + 60;
+    let mut idle = |w: &mut World, ms: u64, if1_from: &Option<u64>, solicited: &mut Vec<(usize, usize)>| {
+        let end = w.now + ms;
+        while w.now < end {
+            w.run_until(next_q.min(end));
+            while next_q < w.now {
+                next_q += 250;
+            }
+            if w.now == next_q {
+                let mut ifs = vec![(IF0, PEER0)];
+                if if1_from.is_some_and(|t| w.now >= t + 1100) {
+                    ifs.push((IF1, PEER1));
+                }
+                for (i, src) in ifs {
+                    let q = query(vec![(n("_t._tcp.local"), T_PTR), (n("_u._udp.local"), T_PTR), (n("one._t._tcp.local"), T_ANY), (n("two._u._udp.local"), T_ANY)]);
+                    let from = w.log.len();
+                    w.deliver(0, i, src, build(&q));
+                    solicited.push((from, w.log.len()));
+                }
+                next_q += 250;
+            }
+        }
+    };
+    let mut registered: [Option<u16>; 2] = [None, None];
+    for op in seq {
+        match op {
+            HOp::Reg1 | HOp::Reg1NewPort | HOp::Reg2 => {
+                let (sv, ty, inst, port) = match op {
+                    HOp::Reg1 => (0, "_t._tcp.local.", "one", 80),
+                    HOp::Reg1NewPort => (0, "_t._tcp.local.", "one", 8080),
+                    _ => (1, "_u._udp.local.", "two", 81),
+                };
+                w.ds[0].h.register(svc(ty, inst, "host.local.", ips, port, &[("k", "v")])).unwrap();
+                w.poke(0);
+                evs.push((w.now, sv, Some(port)));
+                registered[sv] = Some(port);
+            }
+            HOp::Unreg1 | HOp::Unreg2 => {
+                let sv = if *op == HOp::Unreg1 { 0 } else { 1 };
+                let _ = w.ds[0].h.unregister(if sv == 0 { "one._t._tcp.local." } else { "two._u._udp.local." }).unwrap();
+                w.poke(0);
+                if registered[sv].take().is_some() {
+                    evs.push((w.now, sv, None));
+                }
+            }
+            HOp::Idle300 => idle(&mut w, 300, &if1_from, &mut solicited),
+            HOp::Idle2s => idle(&mut w, 2000, &if1_from, &mut solicited),
+            HOp::IfAppears => {
+                if if1_from.is_none() {
+                    table.push(v4("sim1", IF1, "10.0.1.1", 24));
+                    w.ds[0].ctl.set_intfs(table.clone());
+                    if1_from = Some(w.now);
+                }
+            }
+        }
+    }
+    idle(&mut w, 4300, &if1_from, &mut solicited);
+    let end = w.now;
+    if let Some(f) = daemon_fault(&w, 0) {
+        res.viols.push(viol("C07|H|daemon-fault", f));
+        return res;
+    }
+    let all: Vec<(u64, Out, bool)> = w
+        .log
+        .iter()
+        .enumerate()
+        .filter_map(|(ix, e)| match &e.kind {
+            Kind::Out(o) => Some((e.t, o.clone(), solicited.iter().any(|(a, b)| ix >= *a && ix < *b))),
+            _ => None,
+        })
+        .collect();
+    let mut ifs: Vec<(u32, u64)> = vec![(IF0, 0)];
+    if let Some(t) = if1_from {
+        ifs.push((IF1, t));
+    }
+    for sv in 0..2 {
+        let my: Vec<&(u64, usize, Option<u16>)> = evs.iter().filter(|e| e.1 == sv).collect();
+        for (k, ev) in my.iter().enumerate() {
+            let Some(port) = ev.2 else { continue };
+            let t_k = ev.0;
+            let e_k = my.get(k + 1).map_or(end, |n| n.0);
+            for &(i, if_from) in &ifs {
+                // sub-windows: the interface may appear inside the registration window
+                // an interface that appeared is known to the daemon at its next periodic check (<= 1 s)
+                let known_by = if if_from > 0 { if_from + 1000 } else { 0 };
+                let (start, bound) = (t_k.max(if_from), t_k.max(known_by) + 1000);
+                if start >= e_k {
+                    continue;
+                }
+                let on_if: Vec<&(u64, Out, bool)> = all.iter().filter(|(_, o, _)| o.if_index == Some(i)).collect();
+                let names = |m: &Msg| m.all_records().any(|r| r.ttl > 0 && (name_eq_ci(&r.name, &insts[sv]) || matches!(&r.rd, RD::Ptr(t) if name_eq_ci(t, &insts[sv]))));
+                let is_ann = |o: &Out, want_port: Option<u16>| -> bool {
+                    o.is_multicast()
+                        && o.msg.as_ref().is_ok_and(|m| {
+                            m.is_response()
+                                && m.answers.iter().any(|r| r.rtype == T_PTR && r.ttl > 0 && name_eq_ci(&r.name, &tys[sv]) && matches!(&r.rd, RD::Ptr(t) if name_eq_ci(t, &insts[sv])))
+                                && m.answers.iter().any(|r| r.rtype == T_SRV && name_eq_ci(&r.name, &insts[sv]) && matches!(&r.rd, RD::Srv { port: p, .. } if want_port.map_or(true, |w| w == *p)))
+                        })
+                };
+                let anns: BTreeSet<u64> = on_if.iter().filter(|(t, o, sol)| !*sol && *t >= start && *t <= e_k && is_ann(o, Some(port))).map(|(t, _, _)| *t).collect();
+                let tag = format!("svc{sv} if {i} registration at +{} (port {port}, window ends +{})", t_k - base, e_k - base);
+                let a1 = anns.iter().next().copied();
+                if e_k > bound {
+                    match a1 {
+                        Some(a) if a <= bound => res.count("announced_within_bound", 1),
+                        _ => {
+                            res.viols.push(viol("C07|H|registration-not-announced-within-the-bound", format!("{tag}: announcements with these values at {:?}, bound +{}", anns.iter().map(|t| t - base).collect::<Vec<_>>(), bound - base)));
+                            continue;
+                        }
+                    }
+                }
+                let Some(a1) = a1 else { continue };
+                // did the daemon hold the instance name on i at `start`?
+                let last_unreg = my[..k].iter().rev().find(|e| e.2.is_none()).map_or(0, |e| e.0);
+                let held = on_if.iter().any(|(t, o, _)| *t < start && *t >= last_unreg && *t >= if_from && is_ann(o, None) && o.msg.as_ref().is_ok_and(|m| m.answers.iter().all(|r| r.ttl > 0)))
+                    && !my[..k].iter().any(|e| e.2.is_none() && e.0 == start && false);
+                if !held {
+                    res.count("registrations_of_a_name_not_held", 1);
+                    for (t, o, _) in &on_if {
+                        if *t >= start && *t < a1 {
+                            if let Ok(m) = &o.msg {
+                                if m.is_response() && names(m) {
+                                    res.viols.push(viol("C07|H|answered-or-announced-before-probing-finished", format!("{tag}: at +{} before its announcement at +{}: {}", t - base, a1 - base, m.summary())));
+                                }
+                            }
+                        }
+                    }
+                    let probes: BTreeSet<u64> = on_if
+                        .iter()
+                        .filter(|(t, o, _)| *t >= last_unreg.max(if_from) && o.msg.as_ref().is_ok_and(|m| !m.is_response() && asks(m, &insts[sv], T_ANY) && m.authorities.iter().any(|r| r.rtype == T_SRV && name_eq_ci(&r.name, &insts[sv]))))
+                        .map(|(t, _, _)| *t)
+                        .collect();
+                    if !probes.iter().any(|&t| probes.contains(&(t + 250)) && probes.contains(&(t + 500)) && t + 750 <= a1) {
+                        res.viols.push(viol("C07|H|instance-name-not-probed-3x250ms-before-announcement", format!("{tag}: probes at {:?}, announcement +{}", probes.iter().map(|t| t - base).collect::<Vec<_>>(), a1 - base)));
+                    } else {
+                        res.count("instance_probe_triples", 1);
+                    }
+                } else {
+                    res.count("registrations_of_a_name_already_held", 1);
+                }
+                if e_k > a1 + 1000 && !anns.contains(&(a1 + 1000)) {
+                    res.viols.push(viol("C07|H|no-second-announcement-after-1s", format!("{tag}: announcements at {:?}", anns.iter().map(|t| t - base).collect::<Vec<_>>())));
+                }
+            }
+        }
+    }
+    res.nontrivial = !evs.is_empty();
+    res.transitions = w.steps;
+    res.outcome = outcome_hash(&w.log);
+    res.states = final_states(&w);
+    res
+}
+
 pub fn check(tier: &str) -> i32 {
     let mut rep = Report::new("C07", tier, "model_checking");
     let thorough = rep.thorough();
@@ -414,6 +604,36 @@ pub fn check(tier: &str) -> i32 {
         }),
     };
     rep.run_part(&ctl, Duration::from_secs(60));
+    let hdepth = if thorough { 5 } else { 4 };
+    let nh = HOPS.len() as u64;
+    let mut nhs = 0u64;
+    let mut b = 1u64;
+    for _ in 0..=hdepth {
+        nhs += b;
+        b *= nh;
+    }
+    let hseq = move |mut idx: u64| -> Vec<HOp> {
+        let mut len = 0;
+        let mut block = 1u64;
+        while idx >= block {
+            idx -= block;
+            block *= nh;
+            len += 1;
+        }
+        (0..len).map(|_| { let x = idx % nh; idx /= nh; HOPS[x as usize] }).collect()
+    };
+    let hj = [0u64, 137, 249];
+    let hist = FnPart {
+        name: "registration-histories".into(),
+        rule: format!("every sequence of <= {hdepth} events over [register S1, re-register S1 with another port, register S2 (same host), unregister S1, unregister S2, idle 0.3 s, idle 2 s, a second interface appears] x 3 jitters, queried every 250 ms, 4.3 s horizon; per (service, interface, registration): announced within the bound with that registration's values, not answered before three probes when the name was not held, second announcement after 1 s; non-trivial = at least one registration"),
+        n: nhs * 3,
+        describe: Box::new(move |i| format!("{:?} jitter {}", hseq(i / 3), hj[(i % 3) as usize])),
+        run: Box::new(move |i, tr| run_hist(&hseq(i / 3), hj[(i % 3) as usize], tr)),
+    };
+    rep.run_part(&hist, Duration::from_secs(if thorough { 3000 } else { 50 }));
+    rep.require("registration-histories", "announced_within_bound");
+    rep.require("registration-histories", "registrations_of_a_name_not_held");
+    rep.require("registration-histories", "registrations_of_a_name_already_held");
     rep.require("probe-announce-schedule", "instance_probe_triples");
     rep.require("probe-announce-schedule", "host_probe_triples");
     rep.require("probe-announce-schedule", "announcements_checked");
